@@ -15,38 +15,50 @@ import tempfile
 
 VERIF = os.path.dirname(os.path.dirname(os.path.abspath(__file__)))
 corpus = json.load(open(os.path.join(VERIF, 'selftest', 'corpus.json')))
-only = sys.argv[1:]
+only = [a for a in sys.argv[1:] if not a.startswith('-j')]
+jobs = ([int(a[2:]) for a in sys.argv[1:] if a.startswith('-j')] or [1])[0]
 scratch_root = tempfile.mkdtemp(prefix='gowp-selftest-')
-ok = True
-try:
-    base_props = sorted(set(e['property'] for e in corpus if not only or any(o in e['patch'] or o == e['property'] for o in only)))
-    corpus = [{'patch': None, 'property': p, 'expect': 'pass'} for p in base_props] + corpus
-    for ent in corpus:
-        if ent['patch'] is None:
-            pass
-        elif only and not any(o in ent['patch'] or o == ent['property'] for o in only):
-            continue
-        d = os.path.join(scratch_root, 'repo')
-        shutil.rmtree(d, ignore_errors=True)
+# the corpus is run against one commit of /repo: the one that is HEAD when the run starts
+head = subprocess.check_output(['git', '-C', '/repo', 'rev-parse', 'HEAD']).decode().strip()
+
+
+def run_entry(arg):
+    k, ent = arg
+    root = os.path.join(scratch_root, 'w%d' % k)
+    os.makedirs(root)
+    d = os.path.join(root, 'repo')
+    try:
         subprocess.check_call(['git', 'clone', '-q', '--no-hardlinks', '/repo', d])
+        subprocess.check_call(['git', '-C', d, 'checkout', '-q', head])
         if ent['patch'] is None:
             ent['patch'] = '(unchanged tree)'
             p = subprocess.run(['true'])
         else:
             p = subprocess.run(['git', '-C', d, 'apply', os.path.join(VERIF, ent['patch'])], stderr=subprocess.PIPE)
         if p.returncode != 0:
-            print('SKIP  %-45s patch does not apply: %s' % (ent['patch'], p.stderr.decode()[:100]))
-            ok = False
-            continue
-        env = dict(os.environ, GOWP_NO_RETRY='1', GOWP_REPO=d, GOWP_EVIDENCE_DIR=os.path.join(scratch_root, 'ev'), GOWP_REPLAY_DIR=os.path.join(scratch_root, 'replay'))
+            return False, 'SKIP  %-45s patch does not apply: %s' % (ent['patch'], p.stderr.decode()[:100])
+        env = dict(os.environ, GOWP_NO_RETRY='1', GOWP_REPO=d, GOWP_EVIDENCE_DIR=os.path.join(root, 'ev'), GOWP_REPLAY_DIR=os.path.join(root, 'replay'))
         r = subprocess.run([os.path.join(VERIF, 'gowp'), 'check', ent['property']], stdout=subprocess.PIPE, stderr=subprocess.PIPE, env=env)
         out = r.stdout.decode()
         viol = [l for l in out.split('\n') if l.startswith('VIOLATION')]
         want = ent.get('expect', 'violation')
         got = 'violation' if (r.returncode == 1 and viol) else ('pass' if r.returncode == 0 else 'error')
         hit = want == got and (not ent.get('obligation') or any(ent['obligation'] in l for l in viol))
-        print('%s %-45s %s want=%s got=%s %s' % (('MISS ' if ent.get('known_miss') else ('quiet' if ent.get('equivalent') else 'ok   ')) if hit else ('ALARM' if ent.get('equivalent') else 'FAIL '), ent['patch'], ent['property'], want, got, (viol[0].split('replay=')[1] if viol else '')[:90]))
-        ok = ok and hit
+        return hit, '%s %-45s %s want=%s got=%s %s' % (('MISS ' if ent.get('known_miss') else ('quiet' if ent.get('equivalent') else 'ok   ')) if hit else ('ALARM' if ent.get('equivalent') else 'FAIL '), ent['patch'], ent['property'], want, got, (os.path.basename(viol[0].split('replay=')[1]) if viol else '')[:90])
+    finally:
+        shutil.rmtree(root, ignore_errors=True)
+
+
+ok = True
+try:
+    base_props = sorted(set(e['property'] for e in corpus if not only or any(o in e['patch'] or o == e['property'] for o in only)))
+    corpus = [{'patch': None, 'property': p, 'expect': 'pass'} for p in base_props] + corpus
+    todo = [e for e in corpus if e['patch'] is None or not only or any(o in e['patch'] or o == e['property'] for o in only)]
+    from concurrent.futures import ThreadPoolExecutor
+    with ThreadPoolExecutor(max_workers=jobs) as pool:
+        for hit, line in pool.map(run_entry, enumerate(todo)):
+            print(line, flush=True)
+            ok = ok and hit
 finally:
     shutil.rmtree(scratch_root, ignore_errors=True)
 sys.exit(0 if ok else 1)
